@@ -28,3 +28,13 @@ check("C06",
       TB + "Features without coordinates are outside the domain; coordinates < 2^31.",
       "TLA+ spec (RegionI/Region on Bins) + Apalache soundness/completeness lemmas + TLC pointwise check + trace validation of real queries (Trace_Region)",
       engine="tlc+apalache")
+
+check("C07",
+      "AttrSyntax.tla transcribes parser._split_keyvals (inference path), _reconstruct, the Quoter/unquote pair and feature_from_line/str(Feature) at "
+      "character level; AttrGrammar.tla defines the grammar of 'one consistent dialect' as the image of Render under eight side conditions and TLC proves "
+      "InGrammar => RoundTrip, InfersDialect, LineRoundTrip, LooseEqual on 34k (attributes, dialect) pairs. Every pair is rendered by the spec into a full line "
+      "and parsed/printed by the code (JSON equality with the spec's record); seeded random mappings with Unicode are rendered and classified by Gen_Attr; "
+      "attribute columns of the repository's data files are judged by Trace_Attr. The binding of Infer to the code additionally rests on C08's exhaustive "
+      "string enumeration.",
+      TB + "Coordinates are '.' or canonical decimals; known finding Dev_FirstPartDecidesStyle (leading valueless flag in key=value style).",
+      "TLA+ character-level spec (AttrSyntax/AttrGrammar) + TLC round-trip theorems over the grammar + spec-generated lines replayed on the code + trace validation of data-file lines")
